@@ -1,9 +1,12 @@
 /-
   Props.C19 — the reported memory figure against the accounted size of the current dataset.
   `memFn s` is what a fresh server loaded with the dataset of `s` reports; `drift s = s.mem - memFn s`.
-  The property says `drift = 0` always. It is false of the code; what holds is characterised exactly.
+  The property says `drift = 0` always. It is false of the code (a write over an existing key never subtracts the old
+  size); what holds is characterised exactly. Repaired upstream and proved here: FLUSHDB deducts what it removes,
+  FLUSHALL resets the figure, LPUSH / RPUSH creating a list account it once.
 -/
 import SugarModel.Lemmas.Mem
+import SugarModel.Lemmas.ListLemmas
 namespace Sugar.Props.C19
 open Sugar
 
@@ -77,11 +80,51 @@ theorem overwrite_witness :
     let s2 := (setValues c s1 [(b "k", .str (b "a"))]).1
     drift s1 = 0 ∧ drift s2 = 58 ∧ memFn s2 = 58 ∧ s2.mem = 116 := by decide
 
-/-- FLUSHDB empties the dataset and leaves the counter where it was -/
-theorem flush_witness :
+/-- **FLUSHDB keeps the figure in step with the dataset**: the counter loses exactly the accounted size of the keys
+    the database held (every state, every database, written or not) -/
+theorem flushdb_keeps_drift (s s' : State) (i : Nat) (h : flushDb s i = some s') : drift s' = drift s :=
+  drift_flushDb s s' i h
+
+/-- from an exact figure FLUSHDB leaves an exact figure -/
+theorem flushdb_keeps_exact (s s' : State) (i : Nat) (h : flushDb s i = some s') (hex : s.mem = memFn s) :
+    s'.mem = memFn s' := by
+  have := drift_flushDb s s' i h
+  unfold drift at this
+  omega
+
+/-- **FLUSHALL: the figure of the empty dataset is zero** — whatever was stored and whatever the drift was before -/
+theorem flushall_resets (s : State) : (flushAll s).mem = 0 ∧ memFn (flushAll s) = 0 ∧ drift (flushAll s) = 0 :=
+  ⟨rfl, memFn_flushAll s, drift_flushAll s⟩
+
+/-- **LPUSH / RPUSH creating a list account it once**: on a key that is not there the command moves the counter by
+    exactly the accounted size of the list it stores (one SetValues call), so the drift is unchanged -/
+theorem push_creates_counted_once (left : Bool) (c : Ctx) (s : State) (k e0 : Bytes) (es : List Bytes)
+    (h : s.lookup c.db k = none) :
+    drift ((handlePush left c ((if left then b "lpush" else b "rpush") :: k :: e0 :: es)).run c s).1 = drift s := by
+  rw [push_absent_run left c s k e0 es h]
+  simp only
+  cases hok : (setValues c s [(k, .list (e0 :: es))]).2
+  · -- refused: setValues returns the state it was given
+    have : (setValues c s [(k, .list (e0 :: es))]).1 = s := by
+      unfold setValues at hok ⊢
+      split
+      · rfl
+      · rename_i hc; simp [hc] at hok
+    rw [this]
+  · rw [drift_setValues_single c s k _ hok]
+    unfold State.lookup at h
+    simp [oldSize, h]
+
+/-- non-vacuity: FLUSHDB after a write brings dataset and counter back to zero together; RPUSH on a fresh server
+    reports the size of the one list it holds; FLUSHALL after an overwrite (drift 58) lands on the exact figure -/
+example :
     let c : Ctx := { db := 0, now := 1000 }
     let s1 := (setValues c { dbs := [], mem := 0 } [(b "k", .str (b "a"))]).1
-    (flushDb s1 0).map (fun s => (memFn s, s.mem)) = some (0, 58) := by decide
+    let s2 := (setValues c s1 [(b "k", .str (b "a"))]).1
+    (flushDb s1 0).map (fun s => (memFn s, s.mem)) = some (0, 0) ∧
+    drift s2 = 58 ∧ drift (flushAll s2) = 0 ∧ (flushAll s2).mem = 0 ∧
+    (let s3 := ((handlePush false c [b "rpush", b "l", b "a", b "b"]).run c { dbs := [], mem := 0 }).1
+     (s3.mem, memFn s3, s3.lookup 0 (b "l")) = (75, 75, some ⟨.list [b "a", b "b"], none⟩)) := by decide
 
 /-- non-vacuity of `fresh_writes_keep_exact`: two fresh keys on a state that has database 0 -/
 example : drift ([(b "x", Val.str (b "1")), (b "y", Val.int 2)].foldl (setOne 0) { dbs := [(0, ⟨[], []⟩)], mem := 0 }) = 0 := by decide
